@@ -146,6 +146,16 @@ impl VM {
                 crate::verif::site(crate::verif_sites::SNAP_CONST, constants_len as u64, verif_cl_true as u64);
                 crate::verif::site(crate::verif_sites::SNAP_UPREG, upvalues_len as u64, regs_len as u64);
                 crate::verif::site(crate::verif_sites::SNAP_BC, bytecode_len as u64, self.call_site_cache.len() as u64);
+                crate::verif::site(
+                    crate::verif_sites::SNAP_FRAME,
+                    self.verif_frame_record_ok(current_frame_idx) as u64,
+                    current_frame_idx as u64,
+                );
+                crate::verif::site(
+                    crate::verif_sites::SNAP_UPOWNER,
+                    self.verif_upvalues_owner_alive(upvalues_ptr, upvalues_len) as u64,
+                    upvalues_len as u64,
+                );
             }
             // register accesses: index against the live vector, and the cached pointer must be current
             #[cfg(vbxq_aelys_lang_verif)]
